@@ -573,7 +573,8 @@ func (p Parameters) QiOverflowMargin(level int) int {
 // PiOverflowMargin returns floor(2^64 / max(Pi)), i.e. the number of times elements of Z_max{Pi} can
 // be added together before overflowing 2^64. The function returns -1 if the moduli array is empty.
 func (p Parameters) PiOverflowMargin(level int) int {
-	if len(p.pi) == 0 {
+	// level = -1: the auxiliary modulus is not used (e.g. evaluation key at LevelP = -1)
+	if len(p.pi) == 0 || level < 0 {
 		return -1
 	}
 	return int(math.Exp2(64) / float64(slices.Max(p.pi[:level+1])))
